@@ -58,6 +58,21 @@ func (w *World) oracleOnBind(p *PodInfo, m *simkube.Mutation) {
 			}
 		}
 	}
+	if w.armed("C11") {
+		// "distinct pods map to distinct allocation keys, and a key decodes back to the pod it was built from": the key
+		// galaxy stored for this pod's IPs is the documented key of exactly this pod (the model builds keys from the
+		// documented format; two pods of the model never share one)
+		for _, ip := range p.IPs {
+			if f := w.storeFip(ip); f != nil && w.inNewestConf(ip) && f.Key != p.Key {
+				key := "key-differs-from-documented-format"
+				if p.App != nil && strings.Contains(p.App.Pool, "_") {
+					key = "pool-name-with-underscore"
+				}
+				w.fail("C11.key-of-bound-pod", key, "pod %s was bound with IP %s stored under key %q, the documented key of this pod is %q", p.key(), ip, f.Key, p.Key)
+				return
+			}
+		}
+	}
 	if w.armed("C08") && p.App != nil && len(p.Ranges) > 0 {
 		w.oracleC08Bind(p)
 	}
